@@ -13,6 +13,7 @@ from __future__ import annotations
 import ast
 
 from ..core.cfg import CFG, ENTRY, calls_of_stmt, walk_shallow
+from ..core.terms import cmp_, not_, pc, phi_  # noqa: F401
 from ..core.terms import c, evaluate, fn_name, kw, n, pretty, subterms
 from .common import LIB_FACTS, is_call, method, short
 
@@ -139,19 +140,19 @@ def check(ctx):
         want = {
             "is a Dist": ("call", ("n", "isinstance"),
                           (node_t, ("g", "liesel.model.nodes.Dist")), ()),
-            "has an evaluation point": ("cmp", "is not", ("a", node_t, "at"), c(None)),
-            "dist name not skipped": ("cmp", "not in", ("a", node_t, "name"), n("skip")),
-            "at name not skipped": ("cmp", "not in", ("a", ("a", node_t, "at"), "name"),
-                                    n("skip")),
-            "var name not skipped": ("cmp", "not in", ("a", ("a", node_t, "var"), "name"),
-                                     n("skip")),
+            "has an evaluation point": cmp_("is not", ("a", node_t, "at"), c(None)),
+            "dist name not skipped": cmp_("not in", ("a", node_t, "name"), n("skip")),
+            "at name not skipped": cmp_("not in", ("a", ("a", node_t, "at"), "name"),
+                                         n("skip")),
+            "var name not skipped": cmp_("not in", ("a", ("a", node_t, "var"), "name"),
+                                          n("skip")),
         }
         for label, term in want.items():
             ctx.ob("C17.R2", sim, f"selection filter: {label}", term in flat2,
                    detail=f"filter conjuncts: {[short(x, 60) for x in flat2]}",
                    stmt=f"filter {label}")
         extra = [x for x in flat2 if x not in want.values()
-                 and x != ("cmp", "is not", ("a", node_t, "var"), c(None))]
+                 and x != cmp_("is not", ("a", node_t, "var"), c(None))]
         ctx.ob("C17.R2", sim, "no further (hidden) selection criteria", not extra,
                detail=str([short(x, 60) for x in extra]))
     else:
@@ -223,7 +224,7 @@ def check(ctx):
             inp_t = ("iter", ("call", ("a", node_t, "all_input_nodes"), (), ()))
             guard = ("bool", "and", (("call", ("n", "isinstance"),
                                       (node_t, ("g", "liesel.model.nodes.Dist")), ()),
-                                     ("cmp", "is", inp_t, ("a", node_t, "at"))))
+                                     cmp_("is", inp_t, ("a", node_t, "at"))))
             ok_g = (e1 == (node_t, inp_t) and (guard, True) in p1
                     and e2 == (inp_t, node_t) and (guard, False) in p2)
             detail = f"{short(('tuple', e1) if e1 else ())} if {short(guard)} else " \
